@@ -69,6 +69,89 @@ def gen_forced(ctx, n):
     return cases
 
 
+def gen_selfdetach(ctx, n):
+    """a thread detaches ITSELF (myth_detach(myth_self())): nobody else reaps it; it goes on working afterwards
+    (yields, a child of its own that it joins), then returns / exits; its own exit path must release its record"""
+    r = ctx.rng
+    cases = []
+    for i in range(n):
+        threads, ops, t = {}, [], 1
+        for _ in range(r.rng(1, 4)):
+            me = t; t += 1
+            body = []
+            pre = r.rng(0, 2)
+            body += [r.choice(["nop", "yield", "yield 1"]) for _ in range(pre)]
+            kid = None
+            if r.chance(1, 2):
+                kid = t; t += 1
+                threads[kid] = [r.choice(["nop", "yield", "retval %d" % r.rng(0, 99)])]
+            seq = ["detach %d" % me]
+            if kid is not None:
+                seq += ["create %d%s" % (kid, r.choice(["", " pf", " attr"])), r.choice(["join %d", "tryjoinw %d"]) % kid]
+                r.shuffle(seq)
+                # the join of the child must follow its creation
+                ci = [k for k, x in enumerate(seq) if x.startswith("create")][0]
+                ji = [k for k, x in enumerate(seq) if x.startswith(("join", "tryjoinw"))][0]
+                if ji < ci:
+                    seq[ci], seq[ji] = seq[ji], seq[ci]
+            body += seq
+            body += [r.choice(["nop", "yield"]) for _ in range(r.rng(0, 2))]
+            body += r.choice([[], ["retval %d" % r.rng(0, 500)], ["exit %d" % r.rng(0, 500)]])
+            # retval must come first to be the return value; it is harmless anywhere
+            threads[me] = body
+            ops.append("create %d%s" % (me, r.choice(["", " pf", " ss=65536", " attr nullid", " nullid"])))
+            if r.chance(1, 3):
+                ops.append("yield")
+        ops += ["yield"] * (4 * t)
+        threads[0] = ops
+        cases.append(trace.case_text(r.choice([1, 1, 2, 3]), r.rng(1, 1 << 30), [], threads, pswitch=r.choice([20, 60, 85])))
+    return cases
+
+
+# ------------------------------------------------------------------------------------------------
+# uncontrolled one-worker history (harness/c13_mem.c): the address space of the process must not grow
+# ------------------------------------------------------------------------------------------------
+
+MEM_SLACK_PAGES = 128          # 512 KiB: two of the largest stacks used
+
+
+def build_mem(ctx):
+    lib = vlib.build_lib()
+    return vlib.cc(os.path.join(ctx.dir, "c13_mem"), [os.path.join(vlib.VERIF, "harness", "c13_mem.c")],
+                   flags=vlib.lib_cflags() + ["-O1", "-g"], libs=[lib, "-lpthread", "-ldl", "-lrt"])
+
+
+def run_mem_config(exe, cfg):
+    rc, out = vlib.sh([exe] + [str(x) for x in cfg], timeout=400)
+    line = ([l for l in out.split("\n") if l.startswith("statm")] or [out.strip()[-300:]])[0]
+    kv = dict(x.split("=", 1) for x in line.split()[1:] if "=" in x) if line.startswith("statm") else {}
+    msg = None
+    if rc != 0 or not kv:
+        msg = "the run did not complete: exit status %d: %s" % (rc, line)
+    elif int(kv["growth"]) > MEM_SLACK_PAGES:
+        msg = ("one worker, %s create/reap cycles over join / tryjoin loop / timedjoin / detach before and after the finish / detached attribute "
+               "and four stack classes: the address space grew by %s pages after the first 10%% of the cycles (allowed slack %d): %s"
+               % (kv["cycles"], kv["growth"], MEM_SLACK_PAGES, line))
+    elif kv.get("finished") != kv.get("cycles"):
+        msg = "only %s of %s threads ran: %s" % (kv.get("finished"), kv.get("cycles"), line)
+    return msg, rc, line
+
+
+def run_mem(ctx):
+    exe = build_mem(ctx)
+    stats, viol = [], []
+    for k in range(1 if not ctx.thorough else 3):
+        cfg = [100000 if not ctx.thorough else 1000000, ctx.rng.rng(1, 1 << 30)]
+        msg, rc, line = run_mem_config(exe, cfg)
+        stats.append({"config": cfg, "rc": rc, "result": line})
+        if msg:
+            again = [run_mem_config(exe, cfg) for _ in range(3)]
+            viol.append((msg + " [reproduced in %d of 3 repetitions]" % sum(1 for a in again if a[0]),
+                         {"mem_config": cfg, "observed": line, "exit_status": rc, "level": "library",
+                          "expected": "address-space size (/proc/self/statm) after 10%% of the cycles + at most %d pages" % MEM_SLACK_PAGES}))
+    return viol, stats
+
+
 def gen_cycles(ctx, cycles):
     """ONE worker, a long history of creations and reaps with at most L threads alive at a time; tags of
     joined threads are reused (the harness maps a tag to its latest incarnation)"""
@@ -90,7 +173,7 @@ def gen_cycles(ctx, cycles):
                 ops.append("create %d det%s" % (t, r.choice(["", " nullid"])))
             elif free:
                 t = free.pop(r.below(len(free)))
-                ops.append("create %d%s" % (t, r.choice(["", "", " pf"])))
+                ops.append("create %d%s" % (t, r.choice(["", "", " pf", " ss=40000", " ss=262144", " pf ss=40000"])))
                 live.append(t)
             else:
                 created -= 1
@@ -270,7 +353,7 @@ def run(ctx):
     broken, log = ctx.prove("Properties_C13.v", "Properties_C13")
     exe, drv = dc.build(ctx)
     n = 45 if not ctx.thorough else 700
-    cases = c01.load_corpus("C13") + gen_forced(ctx, n) + gen_orders(ctx, n)
+    cases = c01.load_corpus("C13") + gen_forced(ctx, n) + gen_orders(ctx, n) + gen_selfdetach(ctx, 20 if not ctx.thorough else 300)
     results = dc.run_cases(ctx, exe, drv, cases)
     # long histories on one worker
     cyc = []
@@ -288,16 +371,28 @@ def run(ctx):
             r["model"] = verdict + " (sequential allocator model)"
             r["fail_context"] = {"verdict": verdict}
     ctx.cov["bounded_memory"] = mem_stats
+    mviol, mstats = run_mem(ctx)
+    ctx.cov["address_space"] = {"runs": mstats, "slack_pages": MEM_SLACK_PAGES}
+    selfd = sum(1 for r in results for cl in r["proj"].calls if cl["op"] == "detach" and cl["actor"] == cl["target"])
+    ctx.cov["self_detach_calls"] = selfd
 
     def oracle_all(r):
         return oracle(r) + r.get("_mem", [])
     return c01.judge(ctx, "C13", results + cres, oracle_all, POINTS, broken, log, exe, drv, ASSUMPTIONS,
-                     extra_trusted=["harness/lib_interp.c ops tryjoinw / timedjoinw (repeat the call until it returns 0) and the record identity d<k> on alloc.desc / free.desc lines"])
+                     extra_trusted=["harness/lib_interp.c ops tryjoinw / timedjoinw (repeat the call until it returns 0) and the record identity d<k> on alloc.desc / free.desc lines",
+                                    "harness/c13_mem.c (uncontrolled one-worker history; /proc/self/statm first field as the measure of memory obtained from the system)"],
+                     extra_violations=mviol)
 
 
 def replay(ctx, path):
     body = json.load(open(path))
     exe, drv = dc.build(ctx)
+    if "mem_config" in body:
+        msg, rc, line = run_mem_config(build_mem(ctx), body["mem_config"])
+        print("uncontrolled one-worker history (cycles seed):", body["mem_config"])
+        print("impl:  rc=%d %s" % (rc, line))
+        print("oracle:", msg)
+        return 0
     if "case" not in body:
         print("replay file holds no case (broken obligation): ", body.get("what"))
         return 0
